@@ -419,11 +419,40 @@ class CFG:
 
     # -- reaching definitions --------------------------------------------------
     @staticmethod
+    def _attr_var(t):
+        """'base.attr' for a store to base.attr, base.attr[...] (any subscript depth)."""
+        while isinstance(t, ast.Subscript):
+            t = t.value
+        if isinstance(t, ast.Attribute) and isinstance(t.value, ast.Name):
+            return '%s.%s' % (t.value.id, t.attr)
+        return None
+
+    @staticmethod
     def _targets(node):
-        """Names (re)defined by a CFG node."""
+        """Names (re)defined by a CFG node; attribute stores define the pseudo-variable
+        'base.attr' so that two reads of self.x separated by a write get different keys."""
         out = []
         a = node.ast
         if node.kind == 'stmt':
+            tg = []
+            if isinstance(a, ast.Assign):
+                tg = list(a.targets)
+            elif isinstance(a, (ast.AugAssign, ast.AnnAssign)):
+                tg = [a.target]
+            elif isinstance(a, ast.Delete):
+                tg = list(a.targets)
+            for t in tg:
+                for tt in (t.elts if isinstance(t, (ast.Tuple, ast.List)) else [t]):
+                    av = CFG._attr_var(tt)
+                    if av:
+                        out.append(av)
+            if isinstance(a, ast.Expr) and isinstance(a.value, ast.Call) and \
+                    isinstance(a.value.func, ast.Attribute) and a.value.func.attr in (
+                        'append', 'pop', 'extend', 'insert', 'remove', 'clear', 'sort',
+                        'reverse', 'resize', 'fill'):
+                av = CFG._attr_var(a.value.func.value)
+                if av:
+                    out.append(av)
             if isinstance(a, ast.Assign):
                 for t in a.targets:
                     for sub in ast.walk(t):
